@@ -5,6 +5,7 @@ Tie: correspondence of
   * router-items : create_router_for_located_request(...)._items      vs  `combine`
   * router-walk  : repeated LocatedRequestRouter.route_handler         vs  `visit`
   * bus-send     : OperatingRetort._provide_from_recipe with real ChainingProvider  vs  `send`
+  * bus-log      : the recipe positions of the handlers invoked during that call, in order  vs  `sendLog`
   * facade       : public Retort(recipe=[loader(...)...]).load / extend / replace / nested retort vs `send`
 Direct oracle (real code only, Python): outcome == documented first-match/chaining
 meaning computed on the linear recipe; no handler invoked twice on a successful request.
@@ -22,9 +23,13 @@ CLAIM = {
         "Proved in Lean for every recipe length, checker arrangement and request: the handlers handed out by the "
         "ExactOriginCombiner/LocatedRequestRouter model are exactly the matching providers in recipe order, each once "
         "(combine_refines_linear, no_provider_twice); the bus with ChainingProvider equals the documented "
-        "first-match / Chain.FIRST / Chain.LAST meaning (send_eq_spec, chain_first_once, chain_last_once); extend "
-        "prepends. The model is tied to the code by four correspondences (router items, router walk, bus outcome with "
-        "the real ChainingProvider, public facade incl. extend/replace/nested retort)."
+        "first-match / Chain.FIRST / Chain.LAST meaning (send_eq_spec, chain_first_once, chain_last_once); the "
+        "handlers the bus itself invokes for a served request are the matching providers up to the first that "
+        "neither declines nor delegates, each once (served_request_consults_prefix, no_provider_twice_send, "
+        "later_consulted_only_after_delegation over the instrumented bus sendLog); a retort in a recipe answers "
+        "from its own recipe (nested_retort_serves_own_recipe); extend prepends. The model is tied to the code by "
+        "five correspondences (router items, router walk, bus outcome with the real ChainingProvider, the bus's "
+        "invocation log, public facade incl. extend/replace/nested retort)."
     ),
     "note": (
         "Trusted: Lean 4.33 kernel; axioms audited each run (subset of propext, Classical.choice, Quot.sound). The theorems "
@@ -314,8 +319,10 @@ def suite_items_and_walk(ctx: Ctx, real: Real, drv, max_len: int, extra_random: 
         ctx.suite("router-walk", n_walk, d_walk)
 
 
-def check_send_case(ctx: Ctx, real: Real, cs, hs, rq, suite="bus-send"):
+def check_send_case(ctx: Ctx, real: Real, cs, hs, rq, suite="bus-send", log_out=None):
     real_res, log = real.send(cs, hs, rq)
+    if log_out is not None:
+        log_out.extend(log)
     matching = [h for c, h in zip(cs, hs) if py_check(c, rq)]
     spec = py_spec_send(matching)
     ctx.note_case({"checkers": cs, "handlers": hs, "req": rq}, nontrivial=len(matching) >= 2, kind=suite)
@@ -344,17 +351,29 @@ def suite_send(ctx: Ctx, real: Real, drv, n_random: int, exhaustive_len: int):
         cases.append((cs, hs, rq))
     replies = drv.batch([{"op": "send", "checkers": cs, "handlers": hs, "req": rq} for cs, hs, rq in cases]) if drv \
         else [None] * len(cases)
-    n = d = 0
-    for (cs, hs, rq), rep in zip(cases, replies):
-        real_res = check_send_case(ctx, real, cs, hs, rq)
+    # the ghost-instrumented bus of the model (`sendLog`): which recipe positions are invoked, in which order -
+    # also for requests that fail (where a chaining provider makes the bus re-walk the remainder)
+    log_replies = drv.batch([{"op": "send_log", "checkers": cs, "handlers": hs, "req": rq} for cs, hs, rq in cases]) \
+        if drv else [None] * len(cases)
+    n = d = nl = dl = 0
+    for (cs, hs, rq), rep, lrep in zip(cases, replies, log_replies):
+        real_log: list = []
+        real_res = check_send_case(ctx, real, cs, hs, rq, log_out=real_log)
         ctx.sample({"suite": "bus-send", "checkers": cs, "handlers": hs, "req": rq, "real": real_res}, every=1499)
         if rep is not None:
             n += 1
             if rep.get("ok") != real_res:
                 d += 1
                 ctx.disagree("bus-send", {"checkers": cs, "handlers": hs, "req": rq}, real_res, rep)
+        if lrep is not None:
+            nl += 1
+            want = {"result": real_res, "log": real_log}
+            if lrep.get("ok") != want:
+                dl += 1
+                ctx.disagree("bus-log", {"checkers": cs, "handlers": hs, "req": rq}, want, lrep)
     if drv:
         ctx.suite("bus-send", n, d)
+        ctx.suite("bus-log", nl, dl)
 
 
 # ---- facade: only public API ----------------------------------------------------
